@@ -12,8 +12,8 @@ base = out
 # one shared verification worktree + target dir for all seeds (disk: a per-seed target grows to 20+ GB)
 wt, tgt = "/tmp/verify/wt", "/tmp/verify/target"
 meta = json.load(open(out + "/meta.json"))
-meta["demo_cmd"] = re.sub(r"/tmp/seed2?_\w+/target", tgt, meta["demo_cmd"])
-meta["demo_cmd"] = re.sub(r"/tmp/seed2?_\w+/wt", wt, meta["demo_cmd"])
+meta["demo_cmd"] = re.sub(r"/tmp/seed[23]?_\w+/target", tgt, meta["demo_cmd"])
+meta["demo_cmd"] = re.sub(r"/tmp/seed[23]?_\w+/wt", wt, meta["demo_cmd"])
 env = dict(os.environ, CARGO_TARGET_DIR=tgt, CARGO_NET_OFFLINE="true", CARGO_INCREMENTAL="0",
            CARGO_PROFILE_DEV_DEBUG="0", CARGO_PROFILE_TEST_DEBUG="0")
 def sh(cmd, **kw):
